@@ -87,6 +87,6 @@ def handleGenLoadV1 (j : Json) : Except String Json := do
   let g ← vInOf (← j.getObjVal? "vin")
   let outer ← vStrs ((j.getObjVal? "outer").toOption.getD (Json.arr #[]))
   pure (Json.mkObj [("code", strJ (genCode printable g)), ("binds", strsJ' (bindsAll printable g)),
-    ("wellScoped", Json.bool (wellScoped printable g outer)), ("stmts", Json.arr ((genBody printable g).flatMap s2J).toArray)])
+    ("wellScoped", Json.bool (wellScoped printable g outer)), ("premises", Json.bool (premisesB g outer)), ("stmts", Json.arr ((genBody printable g).flatMap s2J).toArray)])
 
 end DW.Driver
